@@ -107,7 +107,7 @@ def run_tpl_model(v: Verdict, name, cases_text, flags, label, intern=None):
     shard = 400
     for k in range(0, len(cases_text), shard):
         chunk = cases_text[k:k + shard]
-        src = ("From V.Model Require Import Base Templates TplLane.\n"
+        src = ("From V.Model Require Import Base Templates TdTemplates TplLane.\n"
                "Definition the_cases : list tcase := [\n" + ";\n".join(chunk) + "\n].\n"
                f"Eval vm_compute in (bad_tcases {unsafe_ids(intern)} {T.c_bool(flags[0])} {T.c_bool(flags[1])} 0 the_cases).\n")
         rc, out = run_cases_file(f"{name}_{k}", src)
@@ -121,7 +121,7 @@ def run_tpl_model(v: Verdict, name, cases_text, flags, label, intern=None):
 
 
 def model_outcome(case_text, flags, intern):
-    src = ("From V.Model Require Import Base Templates TplLane.\n"
+    src = ("From V.Model Require Import Base Templates TdTemplates TplLane.\n"
            f"Eval vm_compute in (tcase_model {unsafe_ids(intern)} {T.c_bool(flags[0])} {T.c_bool(flags[1])} ({case_text})).\n")
     rc, out = run_cases_file("tpl_one", src)
     vals = parse_coq_value(out)
@@ -198,6 +198,9 @@ def check_c04(v: Verdict, t1_summary, n_scen, n_payloads):
                 v.violation("detailed_validation changes acceptance or result", rp)
         if si < 3:
             v.samples.append({"class": sc.describe(), "payload": repr(p), "detailed": rd, "fast": rf})
+    hist["_intern"] = intern
+    td_lane(v, t1_summary, "C04", max(10, n_scen // 2), 4, cases, meta, hist)
+    del hist["_intern"]
     bad = run_tpl_model(v, f"c04_{v.seed}", cases, flags, "TPL/C04", intern)
     report_bad(v, bad, cases, meta, flags, "TPL/C04 (templates: model outcome = implementation outcome, detailed and fast)", intern)
     v.coverage["input_distribution"] = hist
@@ -371,6 +374,9 @@ def check_c10(v: Verdict, t1_summary, n_scen, n_payloads):
             if [sorted(x.extra_fields) for x in _forbidden_in(e)] != [["q"]]:
                 v.violation("tagged union: wrong ForbiddenExtraKeysError", {"lane": "C10/tagged", "dv": dv, "error": repr(e)})
 
+    hist["_intern"] = intern
+    td_lane(v, t1_summary, "C10", max(10, n_scen // 2), 4, cases, meta, hist)
+    del hist["_intern"]
     bad = run_tpl_model(v, f"c10_{v.seed}", cases, flags, "TPL/C10", intern)
     report_bad(v, bad, cases, meta, flags, "TPL/C10 (templates with and without forbid: model outcome = implementation outcome)", intern)
     v.coverage["input_distribution"] = hist
@@ -559,6 +565,9 @@ def check_c09(v: Verdict, t1_summary, n_scen, n_inst):
                 v.violation("NamedTuple dict hooks: rename / omit_if_default do not round-trip",
                             {"lane": "C09/namedtuple", "dv": dv, "instance": repr(inst), "unstructured": out})
 
+    hist["_intern"] = intern
+    td_lane(v, t1_summary, "C09", max(10, n_scen // 2), 4, cases, meta, hist)
+    del hist["_intern"]
     bad = run_tpl_model(v, f"c09_{v.seed}", cases, flags, "TPL/C09", intern)
     report_bad(v, bad, cases, meta, flags, "TPL/C09 (generated unstructure template: model dict = implementation dict)", intern)
     v.coverage["input_distribution"] = hist
@@ -567,3 +576,274 @@ def check_c09(v: Verdict, t1_summary, n_scen, n_inst):
 def K_of(f):
     """the attribute value a default leads to (field converters are applied to defaults too)"""
     return T.K(f.default) if f.conv else f.default
+
+
+# ---------------------------------------------------------------- TypedDict templates
+
+class TdScenario:
+    """A generated TypedDict + overrides, with the real hooks of both validation modes."""
+
+    def __init__(self, rng, idx, intern, allow_unsafe=False):
+        from typing import NotRequired, Required, TypedDict
+        self.intern = intern
+        self.idx = idx
+        n = rng.randint(0, 5)
+        self.total = rng.random() < 0.6
+        self.fields = []
+        ann = {}
+        for i in range(n):
+            name = f"k{i}"
+            typed = rng.random() < 0.7
+            t = T.marker(intern(name)) if typed else int
+            req = self.total
+            if rng.random() < 0.3:
+                req = not self.total
+                t = (Required[t] if req else NotRequired[t])
+            ann[name] = t
+            self.fields.append((name, req, typed))
+        self.cl = TypedDict(f"TD{idx}", ann, total=self.total)
+        self.ovs = {}
+        used = set()
+        if rng.random() < 0.65:
+            for (name, req, typed) in self.fields:
+                if rng.random() < 0.4:
+                    o = {}
+                    if rng.random() < 0.2:
+                        o["omit"] = True
+                    else:
+                        key = rng.choice([f"r{name}", name, f"ren{len(used)}"] + (T.UNSAFE_KEYS if allow_unsafe else []))
+                        if key not in used and key not in [f[0] for f in self.fields if f[0] != name]:
+                            o["rename"] = key
+                            used.add(key)
+                    if o:
+                        self.ovs[name] = o
+        self.hooks = {}
+        self.gen_error = {}
+
+    def typed_ids(self):
+        return [self.intern(n) for n, _, typed in self.fields if typed]
+
+    def coq_fields(self):
+        return T.c_list("{| d_name := %s; d_required := %s |}" % (T.cN(self.intern(n)), T.c_bool(req)) for n, req, _ in self.fields)
+
+    def coq_opts(self, forbid, flags):
+        return "{| td_cl := %s; td_forbid := %s; td_skip_self_rename := %s |}" % (T.cN(1000 + self.idx), T.c_bool(forbid), T.c_bool(flags))
+
+    def key_of(self, name):
+        return self.ovs.get(name, {}).get("rename", name)
+
+    def included(self, name):
+        return not self.ovs.get(name, {}).get("omit")
+
+    def conv(self, dv):
+        conv = Converter(detailed_validation=dv)
+        for n, _, typed in self.fields:
+            if typed:
+                nid = self.intern(n)
+
+                def sh(v, _t, nid=nid):
+                    if not isinstance(v, int) or isinstance(v, bool):
+                        raise TypeError("not an int")
+                    if v >= 50:
+                        raise ValueError("too large")
+                    return 1000 * (nid + 1) + v
+                conv.register_structure_hook(T.marker(nid), sh)
+                conv.register_unstructure_hook(T.marker(nid), lambda v: v + 7)
+        return conv
+
+    def struct_hook(self, dv, forbid):
+        from cattrs.gen.typeddicts import make_dict_structure_fn as td_struct
+        key = (dv, forbid)
+        if key not in self.hooks and key not in self.gen_error:
+            try:
+                fn = td_struct(self.cl, self.conv(dv), _cattrs_forbid_extra_keys=forbid, _cattrs_detailed_validation=dv, **T.real_overrides(self.ovs))
+                self.hooks[key] = fn
+            except Exception as e:
+                self.gen_error[key] = T.outcome_of_exception(e, self.intern)
+        return self.hooks.get(key)
+
+    def run_struct(self, dv, forbid, payload):
+        h = self.struct_hook(dv, forbid)
+        if h is None:
+            return self.gen_error[(dv, forbid)]
+        try:
+            r = h(payload, self.cl)
+        except Exception as e:
+            return T.outcome_of_exception(e, self.intern)
+        if isinstance(r, dict):
+            if not all(isinstance(x, int) and not isinstance(x, bool) for x in r.values()):
+                return ("other",)
+            return ("ok", [(self.intern(k), val) for k, val in r.items()])
+        return ("junk",)
+
+    def coq_payload(self, payload):
+        if type(payload) is dict:
+            return T.c_payload(("dict", [(self.intern(k), val) for k, val in payload.items()]))
+        keys = sorted({self.key_of(n) for n, _, _ in self.fields} | {n for n, _, _ in self.fields})
+        return T.c_payload(T.probe_obj(payload, keys, self.intern))
+
+    def coq_case(self, dv, forbid, payload, outcome, flag):
+        return "TTd %s %s %s %s %s %s %s" % (T.c_bool(dv), self.coq_opts(forbid, flag), T.coq_ovs(self.ovs, self.intern),
+                                              T.c_list(T.cN(i) for i in self.typed_ids()), self.coq_fields(), self.coq_payload(payload),
+                                              c_outcome2(outcome))
+
+    def gen_payload(self, rng, junk_rate=0.2, extras_rate=0.35):
+        if rng.random() < junk_rate:
+            k = rng.random()
+            keys = [self.key_of(n) for n, _, _ in self.fields] + [n for n, _, _ in self.fields]
+            if k < 0.3:
+                return rng.choice([[1, 2], [], [3, 4, 5]])
+            if k < 0.45:
+                return rng.choice(["k0", "", "abc"])
+            if k < 0.55:
+                return rng.choice([5, None])
+            if k < 0.8:
+                return T.FrozenMap({kk: rng.randrange(0, 45) for kk in keys if rng.random() < 0.8})
+            return {1, 2}
+        d = {}
+        for n, req, _ in self.fields:
+            if rng.random() < (0.1 if req else 0.4):
+                continue
+            d[self.key_of(n)] = rng.randrange(50, 60) if rng.random() < 0.12 else rng.randrange(0, 45)
+        if rng.random() < extras_rate:
+            for j in range(rng.randint(1, 2)):
+                k = rng.choice([f"extra{j}"] + [n for n, _, _ in self.fields])
+                if k not in d:
+                    d[k] = rng.randrange(0, 45)
+        items = list(d.items())
+        rng.shuffle(items)
+        return dict(items)
+
+    def describe(self):
+        return (f"TypedDict TD{self.idx}[" + ", ".join(f"{n}{'' if req else '?'}{'' if typed else ':int'}" for n, req, typed in self.fields) +
+                f"] overrides={self.ovs}")
+
+
+def c_outcome2(x):
+    if x[0] == "junk":
+        return "XJunk"
+    if x[0] == "same":
+        return "XSame"
+    return T.c_outcome(x)
+
+
+def td_flag(t1_summary):
+    return bool(((t1_summary or {}).get("gen") or {}).get("td", {}).get("skip_self_rename", True))
+
+
+def td_lane(v: Verdict, t1_summary, prop, n_scen, n_payloads, cases, meta, hist):
+    """TypedDict part of C04 / C09 / C10: generates cases (appended to `cases`) and runs the property's oracle."""
+    from cattrs.gen.typeddicts import make_dict_unstructure_fn as td_unstruct
+    rng = random.Random(v.seed * 7919 + 100 + int(prop[1:]))
+    intern = hist["_intern"]
+    flag = td_flag(t1_summary)
+    for si in range(n_scen):
+        sc = TdScenario(rng, si, intern, allow_unsafe=(prop == "C09" and si % 12 == 0))
+        hist["td_scenarios"] = hist.get("td_scenarios", 0) + 1
+        allowed = {sc.key_of(n) for n, _, _ in sc.fields if sc.included(n)}
+        for pi in range(n_payloads):
+            p = sc.gen_payload(rng)
+            hist["td_payloads"] = hist.get("td_payloads", 0) + 1
+            outs = {}
+            forbids = (True, False) if prop == "C10" else (rng.random() < 0.4,)
+            for dv in (True, False):
+                for forbid in forbids:
+                    r = sc.run_struct(dv, forbid, p)
+                    outs[(dv, forbid)] = r
+                    cases.append(sc.coq_case(dv, forbid, p, r, flag))
+                    meta.append((sc, f"TD dv={dv} forbid={forbid}", p, r))
+            v.count(sc.describe() + repr(p), len(sc.fields) >= 2)
+            rp = {"lane": f"TPL/{prop}/typeddict", "typeddict": sc.describe(), "payload": repr(p), "outcomes": {str(k): val for k, val in outs.items()}}
+            if prop == "C04":
+                for forbid in {k[1] for k in outs}:
+                    a, b = outs[(True, forbid)], outs[(False, forbid)]
+                    same = (a[0] == "ok") == (b[0] in ("ok", "junk")) and (a[0] != "ok" or sorted(a[1]) == sorted(b[1]))
+                    if not same:
+                        if b[0] == "junk" and a[0] != "ok" and type(p) is not dict:
+                            hist["f11_hits"] = hist.get("f11_hits", 0) + 1
+                            v.finding("F11", "fast mode returns a copy of a non-mapping payload for a TypedDict without required keys", rp)
+                        else:
+                            v.violation("detailed_validation changes acceptance or result of a TypedDict hook", rp)
+            if prop == "C10" and type(p) is dict:
+                unknown = sorted(k for k in p if k not in allowed)
+                base = {k: val for k, val in p.items() if k in allowed}
+                for dv in (True, False):
+                    rf, rn = outs[(dv, True)], outs[(dv, False)]
+                    rb = sc.run_struct(dv, False, base)
+                    if (dv, True) in sc.gen_error:
+                        continue
+                    if unknown:
+                        if rf[0] in ("ok", "junk"):
+                            v.violation("TypedDict hook with forbid_extra_keys accepted unknown keys", {**rp, "unknown": unknown})
+                        elif rb[0] == "ok":
+                            h = sc.struct_hook(dv, True)
+                            try:
+                                h(p, sc.cl)
+                                leaves = []
+                            except Exception as e:
+                                leaves = _forbidden_in(e)
+                            if [sorted(x.extra_fields) for x in leaves] != [unknown]:
+                                v.violation("TypedDict ForbiddenExtraKeysError does not name exactly the unknown keys",
+                                            {**rp, "unknown": unknown, "named": [sorted(x.extra_fields) for x in leaves]})
+                        # flag off: the unknown keys must not change the outcome
+                        if rn[0] == "ok" and rb[0] == "ok" and sorted(rn[1]) != sorted(rb[1]):
+                            hist["f4_hits"] = hist.get("f4_hits", 0) + 1
+                            v.finding("F4", "TypedDict structure keeps unknown keys in its result", {**rp, "without_extras": rb})
+                        elif (rn[0] == "ok") != (rb[0] == "ok"):
+                            v.violation("unknown keys changed the acceptance of a TypedDict payload although forbid_extra_keys is off", {**rp, "without_extras": rb})
+                    else:
+                        if (rf[0] == "ok") != (rn[0] == "ok") or (rf[0] == "ok" and sorted(rf[1]) != sorted(rn[1])):
+                            v.violation("forbid_extra_keys changed the outcome of a TypedDict payload without unknown keys", rp)
+        # unstructure + round trip (C09)
+        if prop == "C09":
+            conv = sc.conv(True)
+            try:
+                un = td_unstruct(sc.cl, conv, **T.real_overrides(sc.ovs))
+                gerr = None
+            except Exception as e:
+                un, gerr = None, e
+            for ii in range(n_payloads):
+                inst = {}
+                for n, req, _ in sc.fields:
+                    if req or rng.random() < 0.6:
+                        inst[n] = rng.randrange(0, 40)
+                if gerr is not None:
+                    out = T.outcome_of_exception(gerr, intern)
+                else:
+                    try:
+                        d = un(inst)
+                        out = ("same",) if d is inst else ("ok", [(intern(k), val) for k, val in d.items()])
+                    except Exception as e:
+                        out = T.outcome_of_exception(e, intern)
+                cases.append("TTdUn %s %s %s %s %s %s" % (sc.coq_opts(False, flag), T.coq_ovs(sc.ovs, intern),
+                                                           T.c_list(T.cN(i) for i in sc.typed_ids()), sc.coq_fields(),
+                                                           T.c_pairs([(intern(k), val) for k, val in inst.items()]), c_outcome2(out)))
+                meta.append((sc, "TD unstructure", inst, out))
+                if gerr is not None:
+                    rp = {"lane": "TPL/C09/typeddict", "typeddict": sc.describe(), "error": repr(gerr)}
+                    if any(o.get("rename") in T.UNSAFE_KEYS for o in sc.ovs.values()) and isinstance(gerr, SyntaxError):
+                        v.finding("F3", "a key containing a quote or a trailing backslash is spliced into the generated source", rp)
+                    else:
+                        v.violation("TypedDict hook generation failed for a consistent customisation", rp)
+                    continue
+                if out[0] not in ("ok", "same"):
+                    v.violation("TypedDict unstructure hook failed", {"lane": "TPL/C09/typeddict", "typeddict": sc.describe(), "instance": inst, "outcome": out})
+                    continue
+                d = inst if out[0] == "same" else d
+                exp = {sc.key_of(n) for n in inst if sc.included(n)}
+                if set(d.keys()) != exp:
+                    v.violation("TypedDict unstructure hook does not emit exactly the configured key set",
+                                {"lane": "TPL/C09/typeddict", "typeddict": sc.describe(), "instance": inst, "emitted": sorted(d.keys()), "expected": sorted(exp)})
+                    continue
+                # structure back with the same customisation: the handled keys come back (through the tagging handlers)
+                for dv in (True, False):
+                    back = sc.run_struct(dv, False, dict(d))
+                    want = {}
+                    for n, req, typed in sc.fields:
+                        if n in inst and sc.included(n):
+                            want[intern(n)] = (1000 * (intern(n) + 1) + inst[n] + 7) if typed else inst[n]
+                    if back[0] != "ok" or any(dict(back[1]).get(k) != val for k, val in want.items()):
+                        if (dv, False) in sc.gen_error:
+                            continue
+                        v.violation("TypedDict structure hook with the same customisation does not restore the handled keys",
+                                    {"lane": "TPL/C09/typeddict", "typeddict": sc.describe(), "instance": inst, "unstructured": d, "dv": dv, "back": back})
